@@ -513,4 +513,51 @@ theorem drawAndApplyEvent_val (hR : Refines e T L) (x : Vec Rat) (hx : x.size = 
 
 end gil
 
+/-- the scratch validity does not depend on which slot-count function describes the layout -/
+theorem GilOK.transfer {T : Tabs} {L : Layout} {slots slots' : Nat → Nat} {nb nb' : Nat → Nat → Option Nat} {g : GilSt}
+    (h1 : LayoutOK T L slots nb) (h2 : LayoutOK T L slots' nb') (hg : GilOK T L slots g) : GilOK T L slots' g := by
+  refine ⟨hg.ar, hg.a0r, hg.a0d, fun i s k hi hs hk a ha => ?_⟩
+  have : slots i = slots' i := by
+    have a1 := h1.nSlots i hi
+    rw [h2.nSlots i hi] at a1
+    exact (Except.ok.inj a1).symm
+  exact hg.ad i s k hi hs (by rw [this]; exact hk) a ha
+
+/-- GILLESPIE (both layouts): `Iterate()` of `Gillespie3D` / `GillespieGraph` on the checked object is `gillespieStep`
+of the core model, with `u1 = o.unif ucnt` the uniform draw and `Lg = o.logInv (ucnt+1)` the `log(1/u2)` draw:
+total propensity 0 ↔ the core step is `none` (the object completes, the state is unchanged); otherwise the new state
+and the new `dt` are those of the core step. -/
+theorem gillespie_iterate_refines (o : Oracles) (S : CSim) (h : SimOK S) (e : EngIn) (hR : Refines e S.T S.L)
+    (g : GilSt) (hsc : S.scratch = .gil g) (hnc : S.smp.complete = false) :
+    Ok (S.iterate o) (fun r => SimOK r.1 ∧ Refines e r.1.T r.1.L ∧
+      (a0 e (absState S.T.ns S.x) = 0 →
+        gillespieStep e (absState S.T.ns S.x) (o.unif S.ucnt) (o.logInv (S.ucnt + 1)) = none ∧
+        r.2 = false ∧ r.1.x = S.x ∧ r.1.smp.complete = true) ∧
+      (a0 e (absState S.T.ns S.x) ≠ 0 →
+        ∃ gs, gillespieStep e (absState S.T.ns S.x) (o.unif S.ucnt) (o.logInv (S.ucnt + 1)) = some gs ∧
+          r.1.dt = gs.dt ∧ Agree r.1.T r.1.x gs.x)) := by
+  unfold CSim.iterate
+  rw [if_neg (by simp [hnc]), hsc]
+  simp only []
+  obtain ⟨slots, nb, hL, hscr⟩ := h.layout
+  have hg : GilOK S.T S.L e.topo.nSlots g := by
+    rw [hsc] at hscr
+    cases hscr with
+    | gil _ hg => exact hg.transfer hL hR.layout
+  refine Ok.bind (computePropensities_val hR S.x h.x g hg) (fun g' hg' => ?_)
+  rw [hg'.a0]
+  by_cases h0 : a0 e (absState S.T.ns S.x) = 0
+  · rw [if_pos h0]
+    refine Ok.pure ⟨⟨h.tabs, ⟨_, _, hR.layout, .gil g' hg'.ok⟩, h.x, ⟨h.smp.ts, h.smp.recs, h.smp.recSize⟩, h.conds⟩, hR, fun _ => ⟨?_, rfl, rfl, rfl⟩, fun hne => absurd h0 hne⟩
+    unfold gillespieStep
+    simp [h0]
+  · rw [if_neg h0]
+    refine Ok.bind (drawAndApplyEvent_val hR S.x h.x g' hg' _) (fun x' hx' => ?_)
+    refine Ok.mono (finishStep_fields S h x' hx'.1 _ (.gil g') ⟨_, _, hR.layout, .gil g' hg'.ok⟩ _) (fun r hr => ?_)
+    obtain ⟨hok, hx, hT, hLe, hdt⟩ := hr
+    refine ⟨hok, by rw [hT, hLe]; exact hR, fun h00 => absurd h00 h0, fun _ => ?_⟩
+    refine ⟨_, by unfold gillespieStep; simp only [beq_iff_eq, h0, if_false]; rfl, hdt, ?_⟩
+    rw [hT, hx]
+    exact hx'.2
+
 end Strengths
